@@ -412,7 +412,7 @@ def verify_contract(cdef: ContractDef, tier="quick") -> dict:
             rep["error"] = f"vacuity guard failed: {cov}"
         if not rep["obligations"]:
             rep["error"] = rep["error"] or "zero obligations generated"
-        rep["assumptions"] = list(c.assumptions)
+        rep["assumptions"] = list(c.assumptions) + sorted(getattr(eng, "model_notes", ()))
         rep["opaque"] = sorted(eng.opaque_used)
         rep["builtins"] = sorted(getattr(eng, "builtins_used", ()))
         rep["inlined"] = sorted(eng.inlined)
